@@ -259,6 +259,11 @@ pub fn block(name: &str, c: &AlphaCtx, out: &mut Vec<Op>) {
             }
             out.push(Op::arg(OpK::Drain, iter_arg(0, MODE_NTH_AT, PREFIX_MAX)));
             out.push(Op::arg(OpK::IntoIter, iter_arg(0, MODE_NTH_AT, PREFIX_MAX)));
+            // a consumer that panics inside fold / for_each (first, second, middle, last-but-one, never)
+            for &p in &qs {
+                out.push(Op::arg(OpK::Drain, iter_arg(0, MODE_FOLD_PANIC_AT, p)));
+                out.push(Op::arg(OpK::IntoIter, iter_arg(0, MODE_FOLD_PANIC_AT, p)));
+            }
         }
         "iterlite" => {
             out.push(Op::arg(OpK::Drain, iter_arg(0, MODE_CONSUME, 0)));
@@ -269,7 +274,7 @@ pub fn block(name: &str, c: &AlphaCtx, out: &mut Vec<Op>) {
                     out.push(Op::arg(OpK::IntoIter, iter_arg(0, mode, p)));
                 }
             }
-            for (mode, p) in [(MODE_FOLD_AT, 0), (MODE_COUNT_AT, 1), (MODE_LAST_AT, 0), (MODE_NTH_AT, len / 2), (MODE_NTH_AT, PREFIX_MAX)] {
+            for (mode, p) in [(MODE_FOLD_AT, 0), (MODE_COUNT_AT, 1), (MODE_LAST_AT, 0), (MODE_NTH_AT, len / 2), (MODE_NTH_AT, PREFIX_MAX), (MODE_FOLD_PANIC_AT, 0), (MODE_FOLD_PANIC_AT, len / 2)] {
                 out.push(Op::arg(OpK::Drain, iter_arg(0, mode, p)));
                 out.push(Op::arg(OpK::IntoIter, iter_arg(0, mode, p)));
             }
@@ -465,6 +470,11 @@ pub fn block(name: &str, c: &AlphaCtx, out: &mut Vec<Op>) {
             out.push(Op::arg(OpK::Drain, iter_arg(0, MODE_NTH_AT, PREFIX_MAX)));
             out.push(Op::arg(OpK::IntoIter, iter_arg(0, MODE_NTH_AT, PREFIX_MAX)));
             out.push(Op::arg(OpK::DrainFilter, iter_arg(1, MODE_NTH_AT, PREFIX_MAX)));
+            for &p in &qs {
+                out.push(Op::arg(OpK::Drain, iter_arg(0, MODE_FOLD_PANIC_AT, p)));
+                out.push(Op::arg(OpK::IntoIter, iter_arg(0, MODE_FOLD_PANIC_AT, p)));
+                out.push(Op::arg(OpK::DrainFilter, iter_arg(1, MODE_FOLD_PANIC_AT, p)));
+            }
         }
         // deliberate logic errors (safety-only afterwards)
         "wrong" => {
